@@ -156,6 +156,9 @@ pub fn build_runner(plan: &Plan) -> SimRunner {
     if let Some(ns) = cfg.builder_retry_after_ns {
         r = r.retry_after(Duration::from_nanos(ns));
     }
+    if let Some(t) = &cfg.builder_retry_filter {
+        r = r.retry_filter(Some(t.parse::<cucumber::gherkin::tagexpr::TagOperation>().expect("harness: tag expression")));
+    }
     if cfg.builder_fail_fast {
         r = r.fail_fast();
     }
@@ -187,7 +190,7 @@ pub fn build_cli(plan: &Plan) -> runner::basic::Cli {
         fail_fast: cfg.cli_fail_fast,
         retry: cfg.cli_retry,
         retry_after: cfg.cli_retry_after_ns.map(Duration::from_nanos),
-        retry_tag_filter: None,
+        retry_tag_filter: cfg.cli_retry_filter.as_deref().map(|t| t.parse().expect("harness: tag expression")),
     }
 }
 
